@@ -10,6 +10,9 @@ R2  the beginning-of-line flag is maintained by every consumer of input.  In eve
     returns a byte; yy_flush_buffer and yy_scan_buffer store 1; no other function writes the flag (yysetbol excepted).
 R3  '$' is a trailing newline: the production that links mkstate('\\n') does so behind an epsilon state created in the
     same action, and sets headcnt = 0, trailcnt = 1, rulelen = 1, trlcontxt = true.
+R8  the user's %option pre-action code sees (and may override) the flag of the current token: in own probes with a
+    pre-action (one per back end; the pre-action is a call of an undefined marker function) every rule arm of yylex
+    reaches the pre-action only through the rule set-up's update of the flag (must-pass-through from the head of the arm).
 """
 import re
 import ir, flow, variants
@@ -214,6 +217,37 @@ def nl_compare_of(fn, v):
     if d.ops[0] == ('int', NL): return d.ops[1]
     return None
 
+def setup_stores(sc, fn):
+    """stores of the flag in fn that have the right value (last byte of the token == '\\n'); returns (good guards, problems)"""
+    r = ir.Resolver(fn); c = sc.prog.cfg(fn, cut=False); good = []; probs = []
+    for x in bol_stores(sc, fn):
+        X = nl_compare_of(fn, x.ops[0])
+        ok = False
+        if X is not None:
+            d = fn.def_of(S.strip_ext(fn, X))
+            if d is not None and d.op == 'load':
+                l = r.loc(d.ops[0])
+                # yytext[...] : element of the array yytext points to (%pointer) or of the array yytext itself (%array)
+                is_text = l[0] == 'elem' and (sc.is_var(l[1], 'yytext') or (l[1][0] == 'deref' and sc.is_var(l[1][1], 'yytext')))
+                g = fn.def_of(d.ops[0])
+                idx = None
+                if g is not None and g.op == 'getelementptr':
+                    idx = S.affine(fn, g.ops[-1], lambda val: (lambda dd: dd is not None and dd.op == 'load' and sc.is_var(r.loc(dd.ops[0]), 'yyleng'))(fn.def_of(val)))
+                if is_text and idx is not None and idx[1] == -1: ok = True
+        if not ok:
+            probs.append((x, 'the rule set-up stores a value other than (yytext[yyleng - 1] == \'\\n\') into the beginning-of-line flag')); continue
+        if not sc.via_current(r.loc(x.ops[1])):
+            probs.append((x, 'the rule set-up updates the flag of a buffer other than the current one')); continue
+        # guard: yyleng > 0
+        gs = []
+        for br, t in c.control_deps(x.blk):
+            con = S.edge_constraint(fn, br, t.name)
+            lb = S.lower_bound(fn, con, lambda val: (lambda dd: dd is not None and dd.op == 'load' and sc.is_var(r.loc(dd.ops[0]), 'yyleng'))(fn.def_of(val)))
+            if lb == 1: gs.append(br)
+            else: probs.append((br, 'the flag store in the rule set-up is guarded by something other than yyleng > 0'))
+        good.append((x, gs))
+    return good, probs
+
 def r2(ctx, sc):
     rep = ctx.rep; v = sc.v
     lex = sc.fns('yylex')
@@ -237,36 +271,7 @@ def r2(ctx, sc):
     if sw is None or EOB is None: rep.broken('C06.R2: action switch / YY_END_OF_BUFFER not found in yylex of %s' % v.name)
     cfg = sc.prog.cfg(yylex); res = ir.Resolver(yylex)
     setups = []      # instructions that constitute "the rule set-up ran": guard branches of the flag store, or calls of rule_check_bol
-    def check_setup_fn(fn):
-        """stores of the flag in fn that have the right value (last byte of the token == '\\n'); returns (good guards, problems)"""
-        r = ir.Resolver(fn); c = sc.prog.cfg(fn, cut=False); good = []; probs = []
-        for x in bol_stores(sc, fn):
-            X = nl_compare_of(fn, x.ops[0])
-            ok = False
-            if X is not None:
-                d = fn.def_of(S.strip_ext(fn, X))
-                if d is not None and d.op == 'load':
-                    l = r.loc(d.ops[0])
-                    # yytext[...] : element of the array yytext points to (%pointer) or of the array yytext itself (%array)
-                    is_text = l[0] == 'elem' and (sc.is_var(l[1], 'yytext') or (l[1][0] == 'deref' and sc.is_var(l[1][1], 'yytext')))
-                    g = fn.def_of(d.ops[0])
-                    idx = None
-                    if g is not None and g.op == 'getelementptr':
-                        idx = S.affine(fn, g.ops[-1], lambda val: (lambda dd: dd is not None and dd.op == 'load' and sc.is_var(r.loc(dd.ops[0]), 'yyleng'))(fn.def_of(val)))
-                    if is_text and idx is not None and idx[1] == -1: ok = True
-            if not ok:
-                probs.append((x, 'the rule set-up stores a value other than (yytext[yyleng - 1] == \'\\n\') into the beginning-of-line flag')); continue
-            if not sc.via_current(r.loc(x.ops[1])):
-                probs.append((x, 'the rule set-up updates the flag of a buffer other than the current one')); continue
-            # guard: yyleng > 0
-            gs = []
-            for br, t in c.control_deps(x.blk):
-                con = S.edge_constraint(fn, br, t.name)
-                lb = S.lower_bound(fn, con, lambda val: (lambda dd: dd is not None and dd.op == 'load' and sc.is_var(r.loc(dd.ops[0]), 'yyleng'))(fn.def_of(val)))
-                if lb == 1: gs.append(br)
-                else: probs.append((br, 'the flag store in the rule set-up is guarded by something other than yyleng > 0'))
-            good.append((x, gs))
-        return good, probs
+    def check_setup_fn(fn): return setup_stores(sc, fn)
     if sc.backend in ('c99', 'go'):
         h = sc.fn('rule_check_bol')
         if h is None: rep.broken('C06.R2: rule_check_bol missing in %s' % v.name)
@@ -366,6 +371,65 @@ def r2(ctx, sc):
             else: rep.ok('C06.R2', '%s %s: flag := 1 on every path that (re)initialises the buffer' % (v.name, canon))
     return n
 
+# ---------------------------------------------------------------- R8 (scanner variants with %option pre-action)
+
+PRE_MARK = 'verif_pre'
+
+def preaction_variants(ctx):
+    """own probes: the core list has no %option pre-action.  The pre-action is a call of an undefined function, which names
+    the user's code in the IR of every back end (nothing is linked or run)."""
+    vs = []
+    for b in variants.BACKENDS:
+        opts = ['pre-action="%s();"' % PRE_MARK]
+        head, sep, tail = variants.probe(b, variants.NOREJ, opts).partition('\n%%\n')
+        spec = head + '\n%{\nextern void ' + PRE_MARK + '(void);    /* names the pre-action in the IR; never defined, nothing is linked or run */\n%}' + sep + tail
+        vs.append(variants.Variant('c06_pre_%s' % b, b, variants.NOREJ, opts, raw_spec=spec))
+    variants.instantiate(ctx.art, vs, 'c06')
+    for v in vs:
+        if v.ll is None:
+            ctx.rep.broken('own pre-action probe %s did not instantiate/compile: %s' % (v.name, (v.stderr or getattr(v, 'll_err', ''))[-300:]))
+    return vs
+
+def r8(ctx, sc):
+    """R8: the rule set-up updates the beginning-of-line flag BEFORE it runs the user's %option pre-action code: in every rule arm
+    of yylex no pre-action code is reachable from the head of the arm without passing the set-up (the guard `yyleng > 0` of the
+    flag store / the call of rule_check_bol).  Otherwise a yysetbol() made by the pre-action is overwritten at once, and a
+    pre-action that leaves the arm early (break / return) leaves the flag of the previous token in place."""
+    rep = ctx.rep; v = sc.v
+    lex = [f for f in sc.fns('yylex') if len(f.blocks) > 20]
+    if not lex: rep.broken('C06.R8: no yylex in probe %s' % v.name)
+    yylex = lex[0]
+    sw = action_switch(yylex); EOB, _ = eob_constant(sc, yylex)
+    if sw is None or EOB is None: rep.broken('C06.R8: action switch / YY_END_OF_BUFFER not found in yylex of %s' % v.name)
+    if not reads_bol(sc, yylex): rep.broken('C06.R8: probe %s has a ^ rule but yylex does not read yyatbol' % v.name)
+    cfg = sc.prog.cfg(yylex); dcfg = sc.prog.cfg(yylex, cut=False)
+    if sc.backend in ('c99', 'go'):
+        setups = sc.calls(yylex, 'rule_check_bol')          # (its body: C06.R2)
+    else:
+        setups = []
+        for x, gs in setup_stores(sc, yylex)[0]: setups += (gs or [x])
+    marks = sc.calls(yylex, PRE_MARK)
+    if not marks: rep.broken('C06.R8: the pre-action of probe %s does not appear in yylex' % v.name)
+    by_label = {}
+    for c, l in sw.cases:
+        if 1 <= c < EOB: by_label.setdefault(l, []).append(c)
+    n = 0
+    for l, cases in sorted(by_label.items(), key=lambda kv: kv[1]):
+        armb = yylex.bmap[l]
+        mine = [m for m in marks if dcfg.dominates(armb, m.blk)]
+        if not mine: rep.broken('C06.R8: rule arm %d of probe %s does not contain the pre-action' % (cases[0], v.name))
+        n += 1
+        early = [m for m in mine if m in cfg.reach_from_block(armb, avoid=setups)]
+        if early:
+            rep.fail('C06.R8', sc.key('C06.R8', 'yylex', 'pre-action-before-bol-update'), where(early[0]),
+                     'in the arm of rule %d the user\'s %%option pre-action code runs before the rule set-up has updated the beginning-of-line flag from the last character '
+                     'of the token: a yysetbol() made there is overwritten, and a pre-action that leaves the arm (break / return) keeps the flag of the previous token '
+                     '[variant %s]' % (cases[0], v.name), variant=v.describe(),
+                     replay_input='%option pre-action="if (yy_act == 2) yysetbol(true);"\n%%\n^cmd  { puts("CMD"); }\n;  { }\n[a-z]+ { puts("word"); }\n.|\\n { }\n%%\n-- input "cmd a;cmd b": CMD must be printed twice')
+        else:
+            rep.ok('C06.R8', '%s yylex rule %d: the beginning-of-line update precedes the pre-action@%s' % (v.name, cases[0], mine[0].line))
+    return n
+
 # ---------------------------------------------------------------- driver
 
 def run(ctx):
@@ -387,11 +451,14 @@ def run(ctx):
         if k: used += 1; backs.add(v.backend)
         n2 += k
     rep.require(backs >= {'nr', 'r', 'cxx', 'c99', 'go'}, 'C06.R2 ran only on back ends %s' % sorted(backs))
+    n8 = sum(r8(ctx, scanner(v)) for v in preaction_variants(ctx))
+    rep.setcount('pre_action_probe_arms', n8)
     rep.setcount('variants_with_bol_rules', used)
     rep.setcount('variants_analysed', len(vs))
     rep.floor('C06.R1', 4, "two productions, bol_needed, ntod's one read of scbol[]")
     rep.floor('C06.R2', 1200, '>=17 rule arms + yyinput + flush + scan_buffer in each of >=60 variants with ^ rules')
     rep.floor('C06.R3', 1, "the re '$' production")
+    rep.floor('C06.R8', 90, '>=18 rule arms in each of the five pre-action probes (one per back end)')
     rep.floor('C06.R7', 2, 'the two loops of check_trailing_context')
     rep.floor('C06.R6', 2, "the productions 're2 re' and re '$' force varlength after a | action")
     rep.undecided += ['the split between head and trailing context of a match (value-level: headcnt/trailcnt arithmetic and the DFA)',
@@ -405,7 +472,7 @@ def run(ctx):
     rep.floor('C06.R4', 18, 'language probes x table representations')
     import act_tbl
     act_tbl.trail_rule(ctx, rep, 'C06.R5')
-    rep.floor('C06.R5', 30, 'rules of the trailing-context probes')
+    rep.floor('C06.R5', 60, 'rules of the five trailing-context probes x 2 table options (34 rules each)')
     return rep.finish('other',
         "Generator side: the IR of parse.c is partitioned into grammar actions (blocks dominated by a case label of bison's action switch); the action that "
         "sets bol_needed must distribute into scbol[] only and every other into scset[] only, and ntod must read scbol[] under an even start-state number.  "
